@@ -157,7 +157,8 @@ let () =
           (try
              let members = ref [] in   (* (is_group, flags, args rev, cons rev) newest first *)
              let argv = ref [] and file = ref None and env = ref None and sline = ref None
-             and pinned = ref false and pinned_grp = ref false and pinned_end = ref false and xfiles = ref [] in
+             and pinned = ref false and pinned_grp = ref false and pinned_end = ref false and xfiles = ref []
+             and subspecs = ref [] and pinned_sub = ref false in
              let push_arg t = match !members with
                | (g, f, a, c) :: r -> members := (g, f, t :: a, c) :: r | [] -> raise (Unsupported "arg before handler") in
              let push_con t = match !members with
@@ -186,7 +187,13 @@ let () =
                  else if starts "xdir:" t then
                    (* a directory opens like a file and delivers no line *)
                    xfiles := (str_of_string (unhex (after "xdir:" t)), []) :: !xfiles
-                 else if starts "S:" t then raise (Unsupported "sub-group")
+                 else if starts "S:" t then
+                   (match String.split_on_char ':' t with
+                    | [_; spec; f] ->
+                        members := (false, int_of_string (after "f=" f), [], []) :: !members;
+                        subspecs := (List.length !members - 1, spec) :: !subspecs
+                    | _ -> raise (Unsupported "sub-group token"))
+                 else if t = "model:pinned-subgroup" then pinned_sub := true
                  else if starts "order:" t then ()   (* definition order across members: no influence on the model *)
                  else if t = "out:usage" then raise (Unsupported "usage")) toks;
              let members = List.rev !members in
@@ -196,7 +203,10 @@ let () =
              (* definitions in order: a refused definition is a setup error; in a group the key must be free in
                 every member (crossCheckArguments) = free in the merged table *)
              let merged = ref [] and dropped = ref [] in
+             let has_subs = !subspecs <> [] in
+             if has_subs && is_group then raise (Unsupported "sub-group inside an argument group");
              let build (_, flags, args, cons) =
+               if has_subs then merged := [];       (* every handler has its own key table *)
                let defs = List.map parse_arg (List.rev args) in
                (* a refused definition marked "try" is dropped (its slot keeps its initial value) *)
                let tolerated = List.map (fun t -> List.mem "try" (split_on '/' (String.concat ":" (List.tl (List.tl (List.tl (String.split_on_char ':' t))))))) (List.rev args) in
@@ -243,6 +253,28 @@ let () =
                (c, List.map (fun (_, _, i) -> i) defs, List.map (fun (s, _, _) -> s) defs, flags) in
              let built = List.map build members in
              let show slots arts = List.map2 (fun sl a -> sl ^ "=" ^ show_value a.val0) slots arts in
+             if has_subs then begin
+               if !file <> None || !env <> None || !sline <> None || !xfiles <> [] then raise (Unsupported "sub-group with sources");
+               let indexed = List.mapi (fun i b -> (i, b)) built in
+               let is_sub i = List.mem_assoc i !subspecs in
+               let mains = List.filter (fun (i, _) -> not (is_sub i)) indexed in
+               let subs = List.filter (fun (i, _) -> is_sub i) indexed in
+               let (mc, minits, mslots, _) = match mains with [(_, b)] -> b | _ -> raise (Unsupported "sub-groups need one main handler") in
+               (* the sub-group arguments live in a key table of their own: duplicates there are refused *)
+               let subtab = ref [] in
+               let sgsubs = List.map (fun (i, (c, _, _, _)) ->
+                   let k = key_of_spec (List.assoc i !subspecs) in
+                   (match add_argument !subtab k () with Ok t' -> subtab := t' | _ -> raise Setup);
+                   (k, c)) subs in
+               let sgc = { sg_main = mc; sg_subs = sgsubs } in
+               (match eval_sg !pinned_sub sgc minits (List.map (fun (_, (_, i, _, _)) -> i) subs) (List.map str_of_string !argv) with
+                | Ok st ->
+                    let vals = List.sort compare
+                        (show mslots st.sm.arts @ List.concat (List.map2 (fun (_, (_, _, sl, _)) s -> show sl s.arts) subs st.ss)) in
+                    Printf.printf "%s ok %s ## -\n" id (String.concat " " vals)
+                | Err e -> Printf.printf "%s err ## %s\n" id (err_name e)
+                | Fault _ -> Printf.printf "%s FAULT ## fault\n" id)
+             end else
              if is_group then begin
                let cs = List.map (fun (c, _, _, _) -> c) built in
                let initss = List.map (fun (_, i, _, _) -> i) built in
